@@ -558,6 +558,62 @@ def generate_literal_struct_name(
     return name
 
 
+# Strict and reserved keywords of Rust (2021 edition): a property with one of these
+# names cannot be used as a field identifier, it is suffixed and renamed with serde.
+RUST_KEYWORDS = [
+    "abstract",
+    "as",
+    "async",
+    "await",
+    "become",
+    "box",
+    "break",
+    "const",
+    "continue",
+    "crate",
+    "do",
+    "dyn",
+    "else",
+    "enum",
+    "extern",
+    "false",
+    "final",
+    "fn",
+    "for",
+    "if",
+    "impl",
+    "in",
+    "let",
+    "loop",
+    "macro",
+    "match",
+    "mod",
+    "move",
+    "mut",
+    "override",
+    "priv",
+    "pub",
+    "ref",
+    "return",
+    "self",
+    "static",
+    "struct",
+    "super",
+    "trait",
+    "true",
+    "try",
+    "type",
+    "typeof",
+    "unsafe",
+    "unsized",
+    "use",
+    "virtual",
+    "where",
+    "while",
+    "yield",
+]
+
+
 def _get_doc(doc: Optional[str]) -> str:
     if doc:
         return lines_to_doc_comments(doc.splitlines(keepends=False))
@@ -577,7 +633,7 @@ def generate_property(
         else []
     )
 
-    if prop_name in ["type"]:
+    if prop_name in RUST_KEYWORDS:
         prop_name = f"{prop_name}_"
         if optional:
             optional = [
